@@ -84,6 +84,13 @@ CHECKS = {
             'compared exhaustively with unicodedata for all 0x110000 code points. Held on the histories executed, not a proof.',
             'Trusted: the bitmask model, CPython unicodedata; \\i/\\c only on the BMP; block ranges only checked for disjointness.',
             'DESIGN.md section 4 (C13)'),
+    'C14': ('exploration',
+            'round-trip identity monitor: every node path string produced by the real code is evaluated back and must select exactly its node',
+            'For every node of every generated tree (document / element / fragment roots, ElementTree and lxml) the strings returned by '
+            'node.path, fn:path (3.0 and 3.1) and etree_iter_paths are evaluated with the XPath 3.0 and 3.1 parsers against the same node '
+            'tree and must select exactly that one node (object identity); the set of paths must be as large as the set of nodes.',
+            'Oracle is node identity (no model). Trusted: rv/gen_xml.py generators.',
+            'DESIGN.md section 4 (C14)'),
     'C15': ('exploration',
             'runtime shadow-model monitor over operation histories: pool of live map/array values paired with dict/list models, immutability re-check after every step',
             'Random histories of map:* / array:* functions, constructors and ? lookups are applied to a pool of live XPathMap/XPathArray '
